@@ -526,15 +526,22 @@ def summarize(prop, tier, seed, results, meta, wall):
                     rec = {"case": r["case"], "goal": g["name"], "model": g.get("model"), "detail": g.get("replay", {}).get("detail")}
                     (known_hits if k else violations).append((rec, k))
                 elif st_ == "spurious":
-                    harness_errors.append("%s/%s: counterexample did not reproduce on the real code (spurious): %s" % (
-                        r["case"], g["name"], json.dumps(g.get("replay"))[:300]))
+                    # the solver's model of the abstraction (special functions are uninterpreted symbols constrained by finitely many
+                    # axiom instances) is not a behaviour of the real code: the obligation is neither proved nor refuted
+                    undecided.append("%s/%s (counterexample of the abstraction did not reproduce on the real code: %s)" % (
+                        r["case"], g["name"], json.dumps(g.get("replay"))[:200]))
             else:
                 controls += 1
                 if g["status"] == "control_ok":
                     controls_ok += 1
                     replays += 1
-                else:
+                elif g["status"] == "control_blind":
+                    # the deliberately wrong claim was *proved*: the hypotheses are vacuous or the model is wrong -- nothing can be believed
                     harness_errors.append("%s/%s: negative control came back %s" % (r["case"], g["name"], g["status"]))
+                else:
+                    # refuted by the solver but not confirmed on the real code within the budget (or no verdict): the hypotheses are
+                    # satisfiable, so the sibling obligations are not vacuous; reported, not fatal
+                    undecided.append("%s/%s (negative control: %s)" % (r["case"], g["name"], g["status"]))
     # output
     lines = []
     os.makedirs(os.path.join(ROOT, "replays", prop), exist_ok=True)
